@@ -24,6 +24,7 @@ RULE = ('streams = handshake-coalescing prefix or established session, then KEEP
         'a message boundary strictly inside a segment or a segment boundary strictly inside a message; '
         'distinct by (stream, segmentation).')
 ASSUMPTIONS = [
+    'a header with several defects is judged in the order of the reference deframer: marker, then length, then type',
     'simnet transport semantics: after the agent calls loseConnection no further peer data is delivered',
     'the expected reaction to a framing violation is NOTIFICATION(1, subcode) then close; data field not compared',
     'per-type lengths of RFC 4271 6.1 are violations for OPEN (< 29), NOTIFICATION (< 21) and KEEPALIVE (!= 19); an UPDATE '
@@ -61,6 +62,10 @@ def encode_item(it):
         m = bytearray(rc.MARKER)
         m[it[1]] = it[2]
         return bytes(m) + b'\x00\x13\x04'
+    if k == 'XX':    # several defects in one header: marker octet position, value, declared length, type, body octets present
+        m = bytearray(rc.MARKER)
+        m[it[1]] = it[2]
+        return bytes(m) + bytes([it[3] >> 8, it[3] & 0xFF, it[4]]) + FILL * it[5]
     if k == 'XL':    # bad length field: declared length, type, number of body octets actually present
         return rc.MARKER + bytes([it[1] >> 8, it[1] & 0xFF, it[2]]) + FILL * it[3]
     if k == 'XS':    # known type, length inside 19..4096 but not what RFC 4271 6.1 allows for that type (OPEN, NOTIFICATION, KEEPALIVE)
@@ -246,7 +251,7 @@ def check_case(case, col):
 
 def _viol_kind(items):
     for it in items:
-        if it[0] == 'XM':
+        if it[0] in ('XM', 'XX'):
             return 'marker'
         if it[0] == 'XL':
             return 'len<19' if it[1] < 19 else 'len>4096'
@@ -293,6 +298,10 @@ violation = st.one_of(
     st.tuples(st.just('XL'), st.one_of(st.integers(0, 18), st.integers(4097, 65535), st.sampled_from([0, 1, 18, 4097, 65535])),
               st.sampled_from([1, 2, 3, 4, 5, 128]), st.integers(0, 12)).map(list),
     st.tuples(st.just('XT'), st.sampled_from([0, 6, 7, 127, 129, 255]), st.sampled_from([0, 1, 4, 10])).map(list),
+    # a corrupt marker in a header whose length / type are wrong as well: the connection is not synchronised, whatever
+    # the octets behind the marker say (the reference deframer looks at the marker first)
+    st.tuples(st.just('XX'), st.integers(0, 15), st.sampled_from([0, 0x7F, 0xFE]), st.sampled_from([0, 18, 19, 20, 23, 4096, 4097, 65535]),
+              st.sampled_from([0, 1, 2, 3, 4, 5, 9, 128, 255]), st.integers(0, 12)).map(list),
     st.sampled_from([['XS', 4, 1], ['XS', 4, 7], ['XS', 4, 300], ['XS', 1, 0], ['XS', 1, 9], ['XS', 3, 0], ['XS', 3, 1]]),
 )
 
@@ -370,6 +379,8 @@ def representative_streams():
         [['K'], ['XL', 4097, 2, 8], ['U', 9]],
         [['U', 1], ['XT', 7, 4], ['U', 9], ['K']],
         [['K'], ['XM', 15, 0xFE], ['U', 9]],
+        [['K'], ['XX', 15, 0xFE, 4097, 2, 3], ['U', 9]],
+        [['U', 2], ['XX', 0, 0, 18, 9, 0], ['K']],
         [['O', 90], ['K'], ['U', 1], ['K']],
         [['O', 90, [6]], ['K'], ['XL', 4097, 2, 8], ['U', 9]],
     ]
@@ -410,7 +421,8 @@ def run_shard(spec, seed, col, tier):
         # every local configuration x every known message type / one violation of each kind, whole and cut
         streams = [[['K'], ['U', 1], ['R', 1, 1, 5], ['K']], [['R', 1, 1, 128], ['U', 2]], [['R', 2, 128, 5], ['R', 25, 70, 128], ['K']],
                    [['UM', 1], ['R', 1, 1, 5]], [['K'], ['XT', 6, 4], ['K']], [['K'], ['XL', 18, 5, 0], ['K']],
-                   [['R', 1, 1, 5], ['XM', 3, 0], ['K']], [['XS', 4, 7], ['R', 1, 1, 5]]]
+                   [['R', 1, 1, 5], ['XM', 3, 0], ['K']], [['XS', 4, 7], ['R', 1, 1, 5]], [['K'], ['XX', 15, 0, 18, 3, 0], ['K']],
+                   [['XX', 0, 0x7F, 4097, 9, 4]]]
         for local in sorted(k for k in LOCAL if k):
             for mode in ('est', 'hs'):
                 for items in streams:
